@@ -121,8 +121,8 @@ def gen_spec(seed, profile="core", variant=None, templates=None):
     rng = random.Random(seed)
     variant = variant or rng.choice(("plain", "plain", "congested", "starved", "finite", "finite"))
     congested = variant == "congested"
-    template = rng.choice([t for t in (templates or ()) if t != "twin"] or ("line", "line", "line", "diamond", "pack", "packunpack", "multisink", "fanin", "splitline", "mesh", "rework", "packpack", "syncfan"))
-    if template == "syncfan" and variant in ("finite", "starved"):
+    template = rng.choice([t for t in (templates or ()) if t != "twin"] or ("line", "line", "line", "diamond", "pack", "packunpack", "multisink", "fanin", "splitline", "mesh", "rework", "packpack", "syncfan", "loop"))
+    if template in ("syncfan", "loop") and variant in ("finite", "starved"):
         variant = "plain"        # the template is about a saturated chooser
         congested = False
     item_len = rng.choice((1, 1, 0.5))
@@ -154,7 +154,9 @@ def gen_spec(seed, profile="core", variant=None, templates=None):
 
     def splitter(nid):
         nodes.append({"id": px + nid, "type": "splitter", "delay": rnd_delay_desc(rng), "blocking": rng.random() < 0.6,
-                      "setup": rng.choice(SETUPS), "in_sel": None, "out_sel": None})
+                      "setup": rng.choice(SETUPS), "in_sel": None, "out_sel": None,
+                      # documented: "if mode is UNPACK, split_quantity is ignored"
+                      "splitq": rng.choice((None, None, None, 1, 2, 3))})
 
     def combiner(nid, recipe):
         nodes.append({"id": px + nid, "type": "combiner", "delay": rnd_delay_desc(rng), "blocking": rng.random() < 0.6,
@@ -325,6 +327,40 @@ def gen_spec(seed, profile="core", variant=None, templates=None):
                 sink(f"K{j}")
                 conn(f"M{j}", f"K{j}")
                 edge_force[(px + f"M{j}", px + f"K{j}")] = {"type": "buffer_fifo", "capacity": 50, "delay": {"kind": "const", "seq": [0]}, "mode": "FIFO"}
+        elif template == "loop":
+            # closed loop: a finite population of pallets and items circulates combiner -> splitter -> back to the combiner's feeds
+            # (the same pallet is packed again and again, with items it has carried before); nothing ever reaches a sink
+            k = rng.choice((1, 2, 2, 3))
+            npal = rng.choice((1, 2, 3))
+            nit = rng.choice((k, 2 * k, 2 * k + 1, 3 * k))
+            src("SP", "pallet")
+            src("SI")
+            force[px + "SP"] = {"blocking": True, "ia": {"kind": "callable", "seq": [rng.choice((0.25, 0.5, 1))], "finite": npal}}
+            force[px + "SI"] = {"blocking": True, "ia": {"kind": "callable", "seq": [rng.choice((0.25, 0.5))], "finite": nit}}
+            machine("MP")
+            machine("MI")
+            for n_ in ("MP", "MI"):
+                force[px + n_] = {"blocking": True, "in_sel": rng.choice(("FIRST_AVAILABLE", "FIRST_AVAILABLE", "ROUND_ROBIN")) if n_ == "MI" else "FIRST_AVAILABLE",
+                                  "out_sel": "FIRST_AVAILABLE", "wc": rng.choice((1, 2))}
+            combiner("C0", [1, k])
+            splitter("P0")
+            # every lap passes the combiner: its delay is never zero (a zero-time lap would be an endless loop of the *model*)
+            force[px + "C0"] = {"blocking": True, "out_sel": "FIRST_AVAILABLE", "delay": rnd_delay_desc(rng, allow_zero=False)}
+            # the splitter sends the k items back to the item feed and then the emptied pallet back to the pallet feed
+            force[px + "P0"] = {"blocking": True, "in_sel": "FIRST_AVAILABLE", "out_sel": {"kind": rng.choice(("gen", "callable")), "seq": [0] * k + [1]}}
+            conn("SP", "MP")
+            conn("SI", "MI")
+            conn("MP", "C0")
+            conn("MI", "C0")
+            conn("C0", "P0")
+            conn("P0", "MI")
+            conn("P0", "MP")
+            roomy = lambda: {"type": rng.choice(("buffer_fifo", "buffer_fifo", "buffer_lifo")), "capacity": npal + nit + 1,
+                             "delay": {"kind": "const", "seq": [rng.choice((0, 0, 0.25, 0.5))]}, "mode": "FIFO"}
+            for a_, b_ in (("SP", "MP"), ("SI", "MI"), ("MP", "C0"), ("MI", "C0"), ("C0", "P0"), ("P0", "MI"), ("P0", "MP")):
+                e_ = roomy()
+                e_["mode"] = "FIFO" if e_["type"].endswith("fifo") else "LIFO"
+                edge_force[(px + a_, px + b_)] = e_
         elif template == "multisink":
             src("S0")
             machine("M0")
@@ -521,7 +557,8 @@ def build(spec, env):
             elif t == "splitter":
                 obj = Splitter(env, oid, node_setup_time=n["setup"], processing_delay=seq(n["delay"], oid + ".delay").param(),
                                blocking=n["blocking"], in_edge_selection=policy(n["in_sel"], oid + ".in"),
-                               out_edge_selection=policy(n["out_sel"], oid + ".out"), **ekw(oid))
+                               out_edge_selection=policy(n["out_sel"], oid + ".out"),
+                               **({"mode": "UNPACK", "split_quantity": n["splitq"]} if n.get("splitq") is not None else {}), **ekw(oid))
             elif t == "combiner":
                 obj = Combiner(env, oid, node_setup_time=n["setup"], target_quantity_of_each_item=list(n["recipe"]),
                                processing_delay=seq(n["delay"], oid + ".delay").param(), blocking=n["blocking"],
